@@ -193,6 +193,21 @@ def _batch(cols: list[_Col], nrows: int) -> pa.RecordBatch:
     return pa.RecordBatch.from_arrays(arrays, schema=schema)
 
 
+def _has_dictionary(schema: pa.Schema) -> bool:
+    def walk(t: pa.DataType) -> bool:
+        if pa.types.is_dictionary(t):
+            return True
+        if pa.types.is_struct(t):
+            return any(walk(t.field(i).type) for i in range(t.num_fields))
+        if pa.types.is_list(t) or pa.types.is_large_list(t) or pa.types.is_fixed_size_list(t):
+            return walk(t.value_type)
+        if pa.types.is_map(t):
+            return walk(t.key_type) or walk(t.item_type)
+        return False
+
+    return any(walk(f.type) for f in schema)
+
+
 def _request_bytes(method: str, batch: pa.RecordBatch) -> bytes:
     sink = io.BytesIO()
     md = pa.KeyValueMetadata({b"vgi_rpc.method": method.encode(), b"vgi_rpc.request_version": b"1"})
@@ -392,6 +407,42 @@ def run_case(case: dict) -> Outcome:
             out.fail(f"method_error_misreported/pipe/{sig}/{raises}", f"method raised {exp_err} but the client sees {kind} {etype!r}")
     if ok and not raises and kind != "ok":
         out.fail(f"conforming_not_ok/pipe/{sig}", f"conforming request answered with {kind} {etype!r} (ops {done})")
+
+    # ---- path 1b: the same columns routed through the shared-memory side channel (as a native client does for
+    # large requests): the inline batch is a 0-row pointer carrying the *declared* schema, the real columns live in
+    # a client-owned segment named in the metadata.  The contract applies to the columns the arguments come from.
+    if batch.num_columns > 0 and not _has_dictionary(declared) and not _has_dictionary(batch.schema):
+        # (dictionary-typed batches are stored in shm without their schema message and are decoded with the pointer's
+        # schema, so names/nullability inside the segment are not represented there — not a contract question)
+        from vgi_rpc.shm import ShmSegment, make_shm_pointer_batch
+
+        seg = ShmSegment.create(1 << 20)
+        try:
+            res = seg.allocate_and_write(batch)
+            if res is not None:
+                ptr, ptr_cm = make_shm_pointer_batch(declared, res[0], res[1])
+                md = {b"vgi_rpc.method": m["name"].encode(), b"vgi_rpc.request_version": b"1",
+                      b"vgi_rpc.shm_segment_name": seg.name.encode(), b"vgi_rpc.shm_segment_size": str(seg.size).encode()}
+                md.update({(k if isinstance(k, bytes) else k.encode()): (v if isinstance(v, bytes) else v.encode()) for k, v in ptr_cm.items()})
+                sink = io.BytesIO()
+                with ipc.new_stream(sink, ptr.schema) as w:
+                    w.write_batch(ptr, custom_metadata=pa.KeyValueMetadata(md))
+                del rec[:]
+                data, escaped = _send_pipe(server, sink.getvalue() + (_empty_input_stream() if m.get("stream") else b""))
+                n_inv = len(rec)
+                kind, etype = _read_socket_response(data)
+                out.label("path=shm_request")
+                _judge(out, f"shm_request/{sig}", ok, why, n_inv, raises, done)
+                if ok and not raises and kind != "ok":
+                    out.fail(f"conforming_not_ok/shm_request/{sig}", f"conforming shm-routed request answered with {kind} {etype!r} (ops {done})")
+        finally:
+            try:
+                seg.unlink()
+            finally:
+                try:
+                    seg.close()
+                except BufferError:
+                    pass
 
     # ---- path 2: HTTP
     del rec[:]
